@@ -76,6 +76,8 @@ pub struct Report {
     pub build: String,
     pub cross: Option<String>,
     evaluations: AtomicU64,
+    /// violations that cost a whole step budget each (live-locks)
+    expensive: AtomicU64,
     distinct: Mutex<HashSet<u64>>,
     samples: Mutex<Vec<Value>>,
     counters: Mutex<BTreeMap<String, u64>>,
@@ -95,6 +97,7 @@ impl Report {
     pub fn new(opts: &Opts, level: &'static str, rule: &str) -> Self {
         // the evidence schema only knows these levels
         assert!(matches!(level, "exploration" | "fault_enumeration" | "model_checking" | "proof" | "translation_validation" | "other"), "unknown level {level}");
+        *crate::pool::RUNNING.lock().unwrap() = Some((opts.prop.clone(), opts.tier.name().to_string(), opts.seed, opts.cross.is_some()));
         Report {
             prop: opts.prop.clone(),
             tier: opts.tier,
@@ -106,6 +109,7 @@ impl Report {
             build: opts.build.clone(),
             cross: opts.cross.clone(),
             evaluations: AtomicU64::new(0),
+            expensive: AtomicU64::new(0),
             distinct: Mutex::new(HashSet::new()),
             samples: Mutex::new(Vec::new()),
             counters: Mutex::new(BTreeMap::new()),
@@ -191,6 +195,10 @@ impl Report {
             } else {
                 v.replay = json!({"input": v.replay, "_case": {"phase": phase, "index": index}});
             }
+        }
+        if v.signature.contains("live-lock") && self.expensive.fetch_add(1, Ordering::Relaxed) + 1 >= 32 && !crate::pool::gave_up() {
+            crate::pool::give_up();
+            self.note("exploration stopped early: 32 scenarios ran into the step budget (live-lock); the verdict does not depend on the rest");
         }
         let mut g = self.violations.lock().unwrap();
         match g.get_mut(&v.signature) {
